@@ -273,7 +273,6 @@ Section Search.
     Variable pa swap fav : bool.
     Hypothesis Hct : ct_ok ct.
     Hypothesis Hpos : prefixIdx <= iLow /\ iLow <= ip /\ ip + 4 <= iHigh /\ iHigh < M32 - 65536.
-    Hypothesis Hl0 : 3 <= longest0.
 
     Notation ipIndex := (w_ipIndex prefixIdx ip).
     Notation lowest := (w_lowest prefixIdx dictIdx ip).
@@ -697,11 +696,11 @@ Section Search.
      fuel; the tables keep their invariant; a result longer than [longest] is a valid match ending at least 4
      bytes beyond q *)
   Theorem wider_sound_gen t B q iLow iHigh longest0 nb pa swap fav :
-    TB t B -> B <= q -> prefixIdx <= iLow -> iLow <= q -> q + 4 <= iHigh -> iHigh < M32 - 65536 -> 3 <= longest0 ->
+    TB t B -> B <= q -> prefixIdx <= iLow -> iLow <= q -> q + 4 <= iHigh -> iHigh < M32 - 65536 ->
     exists m t', insertAndGetWiderMatch vrd prefixIdx dictIdx t q iLow iHigh longest0 nb pa swap fav = Some (m, t') /\
       TB t' q /\ t_ntu t' = q /\ longest0 <= hm_len m /\ (longest0 < hm_len m -> mvalid iLow iHigh q m).
   Proof.
-    intros HT HB H1 H2 H3 H4 H5. unfold insertAndGetWiderMatch. cbv zeta.
+    intros HT HB H1 H2 H3 H4. unfold insertAndGetWiderMatch. cbv zeta.
     pose proof (insert_inv t q B HT ltac:(unfold M32 in *; lia) HB) as (HT1 & Hn).
     set (t1 := insert vrd prefixIdx t q) in *.
     pose proof HT1 as (T1 & T2 & T3).
@@ -710,7 +709,7 @@ Section Search.
     { unfold WInv. subst s0. cbn [w_mi w_mcp w_longest w_off w_sback w_rep w_spl].
       split; [apply T1|]. split; [exact I|]. split; [lia|]. split; [intros; lia|]. split; [reflexivity|].
       intros H; discriminate H. }
-    destruct (wider_loop_inv (t_chain t1) q iLow iHigh longest0 pa swap fav T2 ltac:(lia) H5 (Z.to_nat nb) s0 HI0) as (s' & Hs' & HI').
+    destruct (wider_loop_inv (t_chain t1) q iLow iHigh longest0 pa swap fav T2 ltac:(lia) (Z.to_nat nb) s0 HI0) as (s' & Hs' & HI').
     rewrite Hs'. exists (mkHM (w_off s') (w_longest s') (w_sback s')), t1.
     split; [reflexivity|]. split; [exact HT1|]. split; [exact Hn|].
     destruct HI' as (J1 & J2 & J3 & J4 & J5 & J6). cbn [hm_len hm_off hm_back].
@@ -722,7 +721,7 @@ Section Search.
     TB t B -> B <= q -> prefixIdx <= iLow -> iLow <= q -> q + 4 <= iHigh -> iHigh < M32 - 65536 -> 3 <= longest0 ->
     exists m t', insertAndGetWiderMatch vrd prefixIdx dictIdx t q iLow iHigh longest0 nb pa false false = Some (m, t') /\
       TB t' q /\ t_ntu t' = q /\ longest0 <= hm_len m /\ (longest0 < hm_len m -> mvalid iLow iHigh q m).
-  Proof. apply wider_sound_gen. Qed.
+  Proof. intros. apply (wider_sound_gen t B); assumption. Qed.
 End Search.
 
 Print Assumptions wider_sound_gen.
